@@ -22,6 +22,7 @@ import numpy as np
 import common
 import c18_ext as X
 import c18_hist as H
+import c18_r5 as R5
 from common import Case, Failure, f2x, flist, parse_flist, close_vec
 
 PID = 'C18'
@@ -33,7 +34,7 @@ RULE = ('configurations = (method in fir/iir/filtered_fourier/filtered_boxcar) x
         '(windows incl. tuple windows, IIR types / ripples, iteration counts, orders); band edges on a bin and one ulp off (dyadic n, Fs); '
         'families = 7 entry points x int16/int32/int64/uint8/float32/F/strided/read-only/big-endian/float64 x 1-d/2-d/3-d (expectation: the '
         'C-contiguous float64 copy), amplitudes 1e-300..1e300, lb/ub spellings, coefficient spellings; sandwich histories (read all outputs, '
-        'other analyzers / options on the same series, scribble, fresh objects) and one fresh-process order reversal; round 4: parameter-stepping histories on ONE analyzer (assign band / options, reset(), re-read every method; widening, narrowing, disjoint, overlapping, option-only, refused settings, input overwritten / re-targeted; expectation = fresh analyzer; harness/c18_hist.py, session model); refused values (3-d boxcar, 0 iterations)')
+        'other analyzers / options on the same series, scribble, fresh objects) and one fresh-process order reversal; round 4: parameter-stepping histories on ONE analyzer (assign band / options, reset(), re-read every method; widening, narrowing, disjoint, overlapping, option-only, refused settings, input overwritten / re-targeted; expectation = fresh analyzer; harness/c18_hist.py, session model); refused values (3-d boxcar, 0 iterations); round 5: magnitudes (harness/c18_r5.py): all four methods on data scaled by 2^+-43, 2^+-100, 2^+-250 and by a different such gain per channel, expectation gain x the unscaled result (bit-equal for fourier / boxcar, 1e-9 for fir / iir), every scale-free clause re-judged on the scaled data, on-bin sinusoids at those amplitudes, level 2^20..2^24 + fluctuation')
 ASSUMPTIONS = ['parameter-stepping histories assign the attributes the getters read (lb, ub, _filt_order, _gpass, _gstop, _ftype, _win, _boxcar_iterations) and re-target by assigning _ts / data / sampling_rate / time_unit as __init__ does, each followed by reset() (ResetMixin protocol); a re-read without reset() legitimately returns the stored object',
                'integer recordings within +-2*10^4 counts (scipy.signal.filtfilt extends the edges as 2*x0 - x in the input dtype); single precision (float32 data, or float32 coefficients with non-float64 data) judged at 1e-5 relative',
                'not generated because the code refuses them / outside the quantifier: 3-d data for the boxcar (checked as a refusal), boxcar_iterations=0 (refusal), lb=None, ub=0, iir_ftype bessel (scipy.signal.iirdesign has no order selection), odd FIR orders, complex data',
@@ -785,10 +786,13 @@ def oracle(rng, tier, seed, focus, cases_=None):
                 fails.append(Failure('robust/%s/raises' % name, 'robustness %s raised: %s' % (name, r), {'kind': 'robust', 'name': name, 'sd': sd}))
             elif r:
                 fails.append(r)
+    # ---- round 5 (L10): extreme / lopsided power-of-two magnitudes, all four methods (harness/c18_r5.py)
+    f5, n_sc = R5.judge(seed, tier)
+    fails += f5
     keys = {}
     for f in fails:
         keys[f.key] = keys.get(f.key, 0) + 1
-    return fails, {'family_members_judged': n_fam, 'sandwich_histories': n_sw, 'parameter_stepping_histories': n_hist, 'configurations_judged': nj, 'probes_numeric_only': nprobe, 'robustness_experiments': n_rb, 'failed': len(fails), 'failure_keys': keys}
+    return fails, {'magnitude_experiments': n_sc, 'family_members_judged': n_fam, 'sandwich_histories': n_sw, 'parameter_stepping_histories': n_hist, 'configurations_judged': nj, 'probes_numeric_only': nprobe, 'robustness_experiments': n_rb, 'failed': len(fails), 'failure_keys': keys}
 
 
 def replay(d):
@@ -812,6 +816,8 @@ def replay(d):
             if d.get('key') is None or f.key == d['key']:
                 return f
         return r[0] if r and d.get('key') is None else None
+    if d.get('kind') == 'scale':
+        return R5.replay(d)
     if d.get('kind') == 'sandwich':
         r = common.call(lambda: X.sandwich(d['sd'])[0])
         return Failure('sandwich/raises', r, d) if isinstance(r, str) else r
